@@ -233,22 +233,51 @@ pub fn gen_history(rng: &mut Rng, p: &Profile) -> Vec<Op> {
             }),
         }
     }
-    // one history in six: the (small) timestamps are mapped, order preserved, onto the extremes of the u64 range
-    // (0, 1, around 2^31 / 2^32, around 2^63, u64::MAX): every comparison, cast and sentinel sees them
+    // one history in six: the (small) timestamps are mapped, order preserved, onto values at the edges of the
+    // u64 range (0, 1, around 2^8 / 2^16 / 2^31 / 2^32 / 2^63, u64::MAX): every comparison, cast and sentinel sees them
     if rng.chance(1, 6) {
+        let map = extreme_ts_map(rng, ts_span as usize);
         for op in h.iter_mut() {
             if let Op::Put { ts, .. } | Op::Del { ts, .. } = op {
-                *ts = extreme_ts(*ts);
+                *ts = map[(*ts).min(7) as usize];
             }
         }
     }
     h
 }
 
-/// order-preserving map of the small timestamps the generators use onto the extremes of the u64 range
-pub fn extreme_ts(ts: u64) -> u64 {
-    const EXT: [u64; 8] = [0, 1, 1 << 31, 1 << 32, (1 << 63) - 1, 1 << 63, u64::MAX - 1, u64::MAX];
-    EXT[ts.min(7) as usize]
+/// an increasing choice of values from the edges of the u64 range for the timestamps 0..=top (the rest repeats the
+/// last one); in two of three maps the largest used timestamp lies above 2^63, in one of three the two largest
+pub fn extreme_ts_map(rng: &mut Rng, top: usize) -> [u64; 8] {
+    const POOL: [u64; 18] = [
+        0, 1, 2, 255, 256, 65_535, 65_536, (1 << 31) - 1, 1 << 31, (1 << 32) - 1, 1 << 32, (1 << 62) + 1, (1 << 63) - 1, 1 << 63, (1 << 63) + 1,
+        u64::MAX - 2, u64::MAX - 1, u64::MAX,
+    ];
+    let n = top.min(7) + 1;
+    let mut idx: Vec<usize> = (0..POOL.len()).collect();
+    for i in 0..n {
+        let j = i + rng.below((idx.len() - i) as u64) as usize;
+        idx.swap(i, j);
+    }
+    let mut pick: Vec<usize> = idx[..n].to_vec();
+    pick.sort();
+    if rng.chance(2, 3) {
+        let hi = 14 + rng.below(4) as usize; // one of the four values above 2^63
+        if pick[n - 1] < hi {
+            pick[n - 1] = hi;
+        }
+        if n >= 2 && rng.chance(1, 2) && pick[n - 1] > 14 && pick[n - 2] < 14 {
+            let second = 14 + rng.below((pick[n - 1] - 14) as u64) as usize;
+            if second > pick[n - 2] && (n < 3 || second > pick[n - 3]) {
+                pick[n - 2] = second;
+            }
+        }
+    }
+    let mut out = [0u64; 8];
+    for k in 0..8 {
+        out[k] = POOL[pick[k.min(n - 1)]];
+    }
+    out
 }
 
 /// Exhaustive enumeration of all histories of length `len` over a small alphabet (one key).
